@@ -2018,8 +2018,15 @@ def _offset_source_location_column(source_location, offset):
     return new_location
 
 
+def _is_cpp_back_end_attribute(attr):
+    """True if `attr` is a `(cpp)` attribute; other back ends' are not ours to check."""
+    return ir_data_utils.reader(attr).back_end.text == "cpp"
+
+
 def _verify_namespace_attribute(attr, source_file_name, errors):
     if attr.name.text != attributes.Attribute.NAMESPACE:
+        return
+    if not _is_cpp_back_end_attribute(attr):
         return
     namespace_value = ir_data_utils.reader(attr).value.string_constant
     if not re.fullmatch(_NS_RE, namespace_value.text):
@@ -2075,6 +2082,8 @@ _VALID_CASES = ", ".join(case for case in _SUPPORTED_ENUM_CASES)
 def _verify_enum_case_attribute(attr, source_file_name, errors):
     """Verify that `enum_case` values are supported."""
     if attr.name.text != attributes.Attribute.ENUM_CASE:
+        return
+    if not _is_cpp_back_end_attribute(attr):
         return
 
     enum_case_value = attr.value.string_constant
